@@ -137,7 +137,23 @@ func genPrintFile(r *RNG, k int) *genFile {
 			case 13:
 				ctx.MOVOU(xs[0], operand.Mem{Base: Pick(r, gp)})
 			case 14:
-				ctx.VPXORQ(ctx.ZMM(), ctx.ZMM(), ctx.K(), ctx.ZMM())
+				// one opcode with several suffix sets next to each other in one block
+				z1, z2, z3, k1 := ctx.ZMM(), ctx.ZMM(), ctx.ZMM(), ctx.K()
+				switch r.Intn(4) {
+				case 0:
+					ctx.VPXORQ(z1, z2, k1, z3)
+				case 1:
+					ctx.VADDPD(z1, z2, k1, z3)
+					ctx.VADDPD_Z(z1, z2, k1, z3)
+					ctx.VADDPD_RN_SAE(z1, z2, z3)
+				case 2:
+					ctx.VPADDD_Z(z1, z2, k1, z3)
+					ctx.VPADDD_BCST(operand.Mem{Base: Pick(r, gp)}, z2, z3)
+					ctx.VPADDD(z1, z2, z3)
+				default:
+					ctx.VADDPD_BCST_Z(operand.Mem{Base: Pick(r, gp)}, z2, k1, z3)
+					ctx.VADDPD(z1, z2, z3)
+				}
 			default:
 				ctx.XORQ(Pick(r, gp), Pick(r, gp))
 			}
